@@ -258,7 +258,7 @@ CHECKS = {
             "(VerifRunSampler = one call of evictKeysWithExpiredTTL), its ticker goroutine is not started (noeviction)"]),
     "C13": SeqCheck(
         drivers={"quick": [["-family", "kv-canon", "-n", "200", "-len", "40"]] +
-                          [["-family", f, "-n", "350", "-len", "40"] for f in ("set", "zset", "hash", "list")],
+                          [["-family", f, "-n", "200", "-len", "40"] for f in ("set", "zset", "hash", "list")],
                  "thorough": [["-family", "kv-canon", "-n", "2000", "-len", "60"]] +
                              [["-family", f, "-n", "3000", "-len", "60"] for f in ("set", "zset", "hash", "list")]},
         mc={"module": "MC_Store", "consts": mc_store(2, 3),
@@ -363,7 +363,7 @@ CHECKS = {
                                "nodes run in one process on loopback with the in-memory raft stores; process restarts from a boltdb log are "
                                "not exercised (the raft instance cannot be closed through the public API)",
                                "quiescence is detected through the fsm.apply/fsm.applied, gossip.forward and raft.enqueue.delete points"],
-        count_keys=("programs", "events", "role_leader", "role_forward", "role_reject", "role_local", "samples_run", "join", "transfer",
+        count_keys=("programs", "events", "role_leader", "role_forward", "role_reject", "role_local", "samples_run", "bursts", "join", "transfer",
                     "stop", "restore"),
         deviation_consts=True, parts=4, job_workers=4),
     "C08": TraceModelCheck(
@@ -397,7 +397,7 @@ CHECKS = {
         bounds={"quick": (4, 3), "thorough": (6, 4)}, own_findings=[],
         assumptions=PERSIST_ASSUME, model="snap"),
     "C19": SeqCheck(
-        drivers={"quick": [["-family", f, "-n", "150", "-len", "40"] for f in ("kv", "hash", "list", "set", "zset", "expiry", "multidb")],
+        drivers={"quick": [["-family", f, "-n", "90", "-len", "40"] for f in ("kv", "hash", "list", "set", "zset", "expiry", "multidb")],
                  "thorough": [["-family", f, "-n", "1200", "-len", "60"] for f in ("kv", "hash", "list", "set", "zset", "expiry", "multidb")]},
         mc={"module": "MC_Store", "consts": mc_store(2, 3), "invariants": ["TypeOK", "MemZeroEmpty", "MemAdditive"],
             "properties": ["MemFrame"]},
